@@ -58,6 +58,7 @@ type Contract struct {
 	GuardedFree map[string]string // captured variable -> captured mutex that must be held when it is accessed
 	RangeOver  map[int]*Clause // loop ordinal -> required `for range <name>` form
 	Exhaustive  map[int]*Clause     // loop -> the loop is left only when its range is exhausted, or by a return
+	Unconditional map[int]*Clause   // loop -> every iteration runs the whole body: no branch inside the loop but the header's test
 	Rereads     map[int]*Clause     // loop -> the loop's bound len(<expr>) is evaluated again before every iteration
 	CallAsserts map[string][]*Clause // callee -> assertions checked just before each call of it
 	ModAt      map[string][]string // component spelling -> address expressions (only these objects change)
@@ -91,6 +92,7 @@ type CallersDecl struct {
 type SameTypeDecl struct {
 	Pkg, A, B string
 	Props     []string
+	Distinct  bool // the declaration says the two are different types
 }
 
 type GlobalDecl struct {
@@ -260,6 +262,14 @@ func (g *Gen) loadContractFile(path string) error {
 				return fmt.Errorf("%s:%d: bad same-type", path, ln)
 			}
 			g.sameTypes = append(g.sameTypes, &SameTypeDecl{Pkg: pkg, A: strings.TrimSpace(m[2]), B: strings.TrimSpace(m[3]), Props: parseProps(m[1])})
+		case "distinct-type":
+			// distinct-type [Cnn,...] <type expr> != <type expr>   -- the two expressions denote different types (a defined type,
+			// not an alias: a type assertion on the one does not match values of the other)
+			m := regexp.MustCompile(`^\[([A-Z0-9, ]+)\]\s+(.*?)\s+!=\s+(.*)$`).FindStringSubmatch(rest)
+			if m == nil {
+				return fmt.Errorf("%s:%d: bad distinct-type", path, ln)
+			}
+			g.sameTypes = append(g.sameTypes, &SameTypeDecl{Pkg: pkg, A: strings.TrimSpace(m[2]), B: strings.TrimSpace(m[3]), Props: parseProps(m[1]), Distinct: true})
 		case "callers-of":
 			// callers-of <callee> [Cnn,...] : f1 f2 ...   -- the functions allowed to call <callee> directly
 			f := strings.Fields(rest)
@@ -353,6 +363,16 @@ func (g *Gen) loadContractFile(path string) error {
 					cur.Exhaustive = map[int]*Clause{}
 				}
 				cur.Exhaustive[k] = cl
+			case "unconditional":
+				cl, err := parseClause("unconditional", rest3, path, ln)
+				if err != nil {
+					return err
+				}
+				cl.Loop = k
+				if cur.Unconditional == nil {
+					cur.Unconditional = map[int]*Clause{}
+				}
+				cur.Unconditional[k] = cl
 			case "modifies":
 				cur.LoopMods[k] = append(cur.LoopMods[k], strings.Fields(rest3)...)
 			default:
